@@ -258,8 +258,9 @@ def decide(pid, tier, units, args):
     known_ids = {f["id"] for f in failures if f not in viol}
     write_evidence(pid, tier, seed, results, [o for o in obligations if o["id"] not in known_ids], failures, bounded, viol, wall, units, sorted(known_ids))
     if rc == 0:
-        print("OK property=%s tier=%s obligations=%d discharged=%d bounded_harnesses=%d units=%s wall=%.1fs" % (
-            pid, tier, n_ob, n_dis, len(bounded), ",".join(sorted(r.unit for r in results)), wall))
+        counted = [o for o in obligations if o["id"] not in known_ids]      # as in the evidence file: known findings are not counted
+        print("OK property=%s tier=%s obligations=%d discharged=%d known_findings=%d bounded_harnesses=%d units=%s wall=%.1fs" % (
+            pid, tier, len(counted), sum(1 for o in counted if o["discharged"]), len(known_ids), len(bounded), ",".join(sorted(r.unit for r in results)), wall))
     return rc
 
 
